@@ -313,7 +313,7 @@ class Runner:
             "events": [(n, dict(kw)) for n, kw in evs], "state": str(core.playback.get_state()),
             "current": core.playback.get_current_tlid(), "pending": pend.tlid if pend else None,
             "pos": pos, "attempts": list(ats), "queue_len": len(a.queue),
-            "a_uri": None if a.uri is None else env.index_of_uri(a.uri), "a_state": a.state,
+            "a_uri": None if a.uri is None else env.index_of_uri(a.uri), "a_state": a.state, "a_pos": a.pos,
             "history": [(ts, r.uri) for ts, r in core.history.get_history()],
             "modes": (core.tracklist.get_consume(), core.tracklist.get_random(),
                       core.tracklist.get_repeat(), core.tracklist.get_single()),
